@@ -28,10 +28,24 @@ type verifFire struct {
 }
 
 type verifCase struct {
+	Kind    string           `json:"kind"`    // rpc | rmulti
 	Crash   bool             `json:"crash"`   // UnaryCrashInterceptor outside
 	Timeout bool             `json:"timeout"` // UnaryTimeoutInterceptor installed
 	H       verifHandlerSpec `json:"h"`
 	Fire    verifFire        `json:"fire"`
+	// rmulti: several calls through ONE interceptor instance
+	Calls []verifCall `json:"calls"`
+	MOps  []verifMOp  `json:"mops"`
+}
+
+type verifCall struct {
+	H     verifHandlerSpec `json:"h"`
+	Cause string           `json:"cause"` // cancel | deadline
+}
+
+type verifMOp struct {
+	Op string `json:"op"` // start | step (let the handler return / panic) | fire
+	R  int    `json:"r"`
 }
 
 // verifDeadlineCtx: a parent context whose deadline "expires" when the driver says so.
@@ -168,6 +182,157 @@ func verifRun(c *verifCase) map[string]any {
 	return out
 }
 
+// verifRunMulti sends several calls through ONE UnaryTimeoutInterceptor instance (under UnaryCrashInterceptor if
+// asked). A call is "inside" once its handler has signalled that it runs and waits for the driver, so two
+// started, unreleased calls are provably inside the same interceptor at the same time.
+func verifRunMulti(c *verifCase) map[string]any {
+	type callState struct {
+		entered, release, hexit, gdone chan struct{}
+		fire                           func()
+		parent                         context.Context
+		started, inside, released      bool
+		greturn, blocked, panicked     bool
+		resp                           interface{}
+		err                            error
+	}
+	info := &grpc.UnaryServerInfo{FullMethod: "/verif/Method"}
+	ti := UnaryTimeoutInterceptor(time.Hour) // ONE instance
+	invoke := func(ctx context.Context, req interface{}, handler grpc.UnaryHandler) (interface{}, error) {
+		inner := func(ctx context.Context, req interface{}) (interface{}, error) { return ti(ctx, req, info, handler) }
+		if c.Crash {
+			return UnaryCrashInterceptor(ctx, req, info, inner)
+		}
+		return inner(ctx, req)
+	}
+	cs := make([]*callState, len(c.Calls))
+	for i, q := range c.Calls {
+		k := &callState{entered: make(chan struct{}), release: make(chan struct{}), hexit: make(chan struct{}), gdone: make(chan struct{})}
+		var raw func()
+		if q.Cause == "cancel" {
+			ctx, cancel := context.WithCancel(context.Background())
+			k.parent, raw = ctx, cancel
+		} else {
+			dc := &verifDeadlineCtx{Context: context.Background(), done: make(chan struct{})}
+			k.parent, raw = dc, dc.expire
+		}
+		var once sync.Once
+		k.fire = func() { once.Do(raw) }
+		cs[i] = k
+	}
+	handlerOf := func(i int) grpc.UnaryHandler {
+		k, spec := cs[i], c.Calls[i].H
+		return func(ctx context.Context, req interface{}) (interface{}, error) {
+			defer close(k.hexit)
+			close(k.entered)
+			<-k.release
+			if spec.T == "panic" {
+				panic("verif: scripted panic")
+			}
+			var resp interface{}
+			if spec.Resp != nil {
+				resp = *spec.Resp
+			}
+			if spec.Code != 0 {
+				return resp, status.Error(codes.Code(spec.Code), "verif: scripted error")
+			}
+			return resp, nil
+		}
+	}
+	wait := func(k *callState, ch chan struct{}) bool {
+		select {
+		case <-ch:
+			return true
+		case <-time.After(verifHangLimit):
+			k.blocked = true
+			return false
+		}
+	}
+	maxInside := 0
+	for _, op := range c.MOps {
+		if op.R < 0 || op.R >= len(cs) {
+			continue
+		}
+		i, k := op.R, cs[op.R]
+		if k.blocked {
+			continue
+		}
+		switch op.Op {
+		case "start":
+			if k.started {
+				continue
+			}
+			k.started = true
+			go func() {
+				defer close(k.gdone)
+				k.panicked, _ = verifdrv.Catch(func() { k.resp, k.err = invoke(k.parent, "req", handlerOf(i)) })
+			}()
+			k.inside = wait(k, k.entered)
+		case "step":
+			if !k.inside || k.released {
+				continue
+			}
+			k.released = true
+			close(k.release)
+			if wait(k, k.hexit) {
+				k.inside = false
+				if !k.greturn {
+					k.greturn = wait(k, k.gdone)
+				}
+			}
+		case "fire":
+			if !k.started {
+				continue
+			}
+			k.fire()
+			if !k.greturn {
+				k.greturn = wait(k, k.gdone) // the call must come back although its handler stays parked
+			}
+		}
+		n := 0
+		for _, x := range cs {
+			if x.inside {
+				n++
+			}
+		}
+		if n > maxInside {
+			maxInside = n
+		}
+	}
+	// run everything to its end: release all handlers, then insist that every started call returns
+	for _, k := range cs {
+		if k.started && !k.released {
+			k.released = true
+			close(k.release)
+		}
+	}
+	out := make([]map[string]any, len(cs))
+	for i, k := range cs {
+		if !k.started {
+			out[i] = map[string]any{"started": false}
+			continue
+		}
+		select {
+		case <-k.gdone:
+		case <-time.After(2 * verifHangLimit):
+			panic("verif: hung: call never returned")
+		}
+		select {
+		case <-k.hexit:
+		case <-time.After(2 * verifHangLimit):
+			panic("verif: hung: handler never ran to its end")
+		}
+		k.fire()
+		o := map[string]any{"started": true, "panicked": k.panicked, "blocked": k.blocked, "code": int(status.Code(k.err))}
+		if v, ok := k.resp.(int); ok {
+			o["resp"] = v
+		} else if k.resp != nil {
+			o["resp"] = -1
+		}
+		out[i] = o
+	}
+	return map[string]any{"calls": out, "max_inside": maxInside}
+}
+
 // TestVerifDriver drives the composed unary crash/timeout interceptors with a scripted grpc.UnaryHandler
 // that is parked by the driver, so that the deadline is forced before / together with the handler's return.
 func TestVerifDriver(t *testing.T) {
@@ -176,6 +341,9 @@ func TestVerifDriver(t *testing.T) {
 		var c verifCase
 		if err := json.Unmarshal(raw, &c); err != nil {
 			return map[string]any{"error": err.Error()}
+		}
+		if c.Kind == "rmulti" {
+			return verifRunMulti(&c)
 		}
 		return verifRun(&c)
 	})
